@@ -1532,6 +1532,12 @@ def _short(c) -> str:
         return str(c)[:120]
 
 
+def _parse(raw: bytes) -> onnx.ModelProto:
+    m = onnx.ModelProto()
+    m.ParseFromString(raw)
+    return m
+
+
 def _sha(b: bytes) -> str:
     return hashlib.sha1(b).hexdigest()
 
@@ -1566,7 +1572,9 @@ def _check_sequence(proto: onnx.ModelProto, seq: list[str], inputs: list[dict], 
         return {"status": "skip_eval_before", "detail": base["eval_error"], "modified": []}
     res: dict = {"status": "ok", "modified": [], "changed": []}
     try:
-        model = ir.serde.deserialize_model(proto)
+        # deserialize a private copy: an IR initializer keeps a reference to its TensorProto, so renaming it in a pass
+        # (OutputFixPass: "<name>_orig") would write through into `proto` and corrupt the next sequence
+        model = ir.serde.deserialize_model(_parse(raw))
     except Exception as e:  # noqa: BLE001
         return {"status": "fail", "kind": "deserialize-raise", "pass": "serde", "step": -1,
                 "detail": f"{type(e).__name__}: {str(e)[:300]}", "modified": []}
@@ -1708,7 +1716,10 @@ def _classify(kind: str, pass_name: str, model: onnx.ModelProto, fail: dict) -> 
             return "output-replaced-by-untyped-value"
         if "SSA" in detail and len({o.name for o in model.graph.output}) < len(model.graph.output):
             return "output-listed-twice-ssa"
-    if base == "IdentityEliminationPass" and _has_subgraph_output_from_outer(model):
+    if "should not have duplicate outputs" in detail:
+        return "function-duplicate-outputs"
+    if base == "IdentityEliminationPass" and kind in ("checker", "raise", "eval-raise", "serialize-raise") \
+            and _has_subgraph_output_from_outer(model):
         return "subgraph-output-from-outer"
     if base == "RemoveUnusedNodesPass" and kind == "eval-diff" and any(
         n.op_type == "BatchNormalization" and any(a.name == "training_mode" and a.i == 1 for a in n.attribute)
@@ -1736,15 +1747,25 @@ def _classify(kind: str, pass_name: str, model: onnx.ModelProto, fail: dict) -> 
         len(sg.initializer) for gg in [model.graph] for sg in list(_all_graphs(gg))[1:]
     ):
         return "subgraph-initializers"
-    if "duplicate outputs" in fail.get("detail", ""):
-        return "function-duplicate-outputs"
     g = model.graph
     inits = {t.name for t in g.initializer}
     in_names = {i.name for i in g.input if i.name not in inits}
     out_names = [o.name for o in g.output]
     if kind.startswith("io-"):
-        if base == "OutputFixPass" and any(o in in_names for o in out_names):
+        after_names: list = []
+        try:
+            import ast
+
+            after_names = ast.literal_eval(detail.split(" -> ")[1])
+        except Exception:  # noqa: BLE001
+            pass
+        if base == "OutputFixPass" and kind == "io-rename-inputs" and any(o in in_names for o in out_names):
             return "input-is-output"
+        if base == "OutputFixPass" and any("_alias_" in str(x) for x in after_names):
+            return "output-listed-twice"
+        if base == "IdentityEliminationPass" and kind == "io-rename-outputs" and len(set(after_names)) < len(after_names) \
+                and len(set(out_names)) == len(out_names):
+            return "two-outputs-merged-under-one-name"
         if len(set(out_names)) < len(out_names):
             return "output-listed-twice"
         if any(n.op_type == "Identity" and n.output[0] in out_names and n.input[0] in out_names for n in g.node):
@@ -1868,6 +1889,18 @@ def _candidates(model):
         yield c
 
 
+def _detail_class(kind: str, detail: str) -> str:
+    """Coarse class of a failure message; the minimiser must not drift from one class to another."""
+    import re
+
+    if kind == "eval-diff":
+        m = re.search(r": (dtype|shape|bytes) differ", detail)
+        return m.group(1) if m else "count"
+    if kind.startswith("io-"):
+        return ""
+    return re.sub(r"'[^']*'|\"[^\"]*\"|%\S+|\d+", "#", detail)[:50]
+
+
 def _minimise(model, seq, inputs, kind, pass_name, budget_s: float = 4.0, max_evals: int = 250):
     """Greedy shrinking of (model, seq) while the same (kind, pass) failure stays. Returns (model, seq, inputs, fail)."""
     t0 = time.time()
@@ -1883,13 +1916,17 @@ def _minimise(model, seq, inputs, kind, pass_name, budget_s: float = 4.0, max_ev
             r = _check_sequence(m, s, feeds_for(m), {})
         except Exception:  # noqa: BLE001
             return None
-        if r["status"] == "fail" and r["kind"] == kind and r["pass"] == pass_name:
+        if r["status"] == "fail" and r["kind"] == kind and r["pass"] == pass_name and (
+            cls[0] is None or _detail_class(kind, r.get("detail", "")) == cls[0]
+        ):
             return r
         return None
 
+    cls: list = [None]
     best_fail = fails(model, seq)
     if best_fail is None:
         return model, seq, inputs, None
+    cls[0] = _detail_class(kind, best_fail.get("detail", ""))
     # shorten the sequence first
     seq = list(seq[: best_fail["step"] + 1]) if best_fail["step"] >= 0 else []
     i = 0
@@ -2106,7 +2143,7 @@ def _work(chunk: tuple) -> dict:
                 seqlen=len(seq), nodes=_bucket(info["nodes"]), depth=info["depth"], modified=modified,
                 nfeatures=nfeat, status=res["status"],
             )
-            correspond(part, case_id, lambda p=proto: ir.serde.deserialize_model(p), seq)
+            correspond(part, case_id, lambda b=raw: ir.serde.deserialize_model(_parse(b)), seq)
     return part
 
 
@@ -2137,9 +2174,10 @@ def run(ctx: Ctx) -> None:
 
         proto = onnx.ModelProto()
         proto.ParseFromString(base64.b64decode(case["model_b64"]))
-        correspond(part, {"corpus": True}, lambda p=proto: ir.serde.deserialize_model(p), list(case["seq"]))
+        correspond(part, {"corpus": True}, lambda b=proto.SerializeToString(): ir.serde.deserialize_model(_parse(b)),
+                   list(case["seq"]))
     ctx.merge(part)
-    n = ctx.pick(640, 9600)
+    n = ctx.pick(640, 8000)
     per = [n // N_CHUNKS + (1 if i < n % N_CHUNKS else 0) for i in range(N_CHUNKS)]
     chunks = [(ctx.seed, i, per[i]) for i in range(N_CHUNKS)]
     for p in pmap(_work, chunks):
@@ -2186,7 +2224,7 @@ if __name__ == "__main__":  # development only: distribution and modified-rate r
         for name in sorted(PASSES.keys()):
             tot[name] += 1
             try:
-                if PASSES[name]()(ir.serde.deserialize_model(proto)).modified:
+                if PASSES[name]()(ir.serde.deserialize_model(_parse(proto.SerializeToString()))).modified:
                     mod[name] += 1
             except Exception:  # noqa: BLE001
                 mod[name + " (raised)"] += 1
